@@ -468,3 +468,17 @@ def eval_bv(term, values):
         work.extend(x.children())
     v = z3.simplify(z3.substitute(term, *subs)) if subs else z3.simplify(term)
     return v.as_long() if z3.is_bv_value(v) else None
+
+
+def free_symbols(t):
+    """names of the uninterpreted constants of a z3 term (DAG walk)"""
+    seen, out, work = set(), set(), [t]
+    while work:
+        x = work.pop()
+        if x.get_id() in seen:
+            continue
+        seen.add(x.get_id())
+        if z3.is_const(x) and x.decl().kind() == z3.Z3_OP_UNINTERPRETED:
+            out.add(str(x))
+        work.extend(x.children())
+    return out
